@@ -28,6 +28,7 @@ CAT = [
     ("comment", "words s t u"),
     ("entry", "c", "k3", [("h", "{plain}")]),
     ("string", "S", '"upper"'),
+    ("entry-ml", "d", "k4", [("x", "s"), ("y", "t")]),  # multi-line layout, bare reference last, no trailing comma
 ]
 
 
@@ -36,6 +37,8 @@ def text_of(c):
         return f"@string{{{c[1]} = {c[2]}}}"
     if c[0] == "comment":
         return c[1]
+    if c[0] == "entry-ml":
+        return f"@{c[1]}{{{c[2]},\n" + ",\n".join(f"  {k} = {v}" for k, v in c[3]) + "\n}"
     return f"@{c[1]}{{{c[2]}, " + ", ".join(f"{k} = {v}" for k, v in c[3]) + "}"
 
 
@@ -57,17 +60,17 @@ def is_bare(v):
     return not (len(v) >= 2 and ((v[0] == "{" and v[-1] == "}") or (v[0] == '"' and v[-1] == '"'))) and v.isidentifier()
 
 
-def check_doc(ids, acc, case=None):
+def check_doc(ids, acc, case=None, nl="\n"):
     if any(CAT[a][0] == "comment" and CAT[b][0] == "comment" for a, b in zip(ids, ids[1:])):
         return
-    text = "\n".join(text_of(CAT[i]) for i in ids)
-    case = case if case is not None else {"ids": list(ids)}
+    text = nl.join(text_of(CAT[i]).replace("\n", nl) for i in ids)
+    case = case if case is not None else {"ids": list(ids), "newline": nl}
     first_string = {}
     for i in ids:
         c = CAT[i]
         if c[0] == "string" and c[1] not in first_string:
             first_string[c[1]] = c[2]
-    has_entry = any(CAT[i][0] == "entry" for i in ids)
+    has_entry = any(CAT[i][0].startswith("entry") for i in ids)
     acc.case(sample=lambda: {"text": text}, nontrivial_key=text if (has_entry and first_string) else None)
     acc.trace(2)
     try:
@@ -94,7 +97,7 @@ def check_doc(ids, acc, case=None):
     seen_keys = set()
     for i, b in zip(ids, lib.blocks):
         c = CAT[i]
-        if c[0] != "entry":
+        if not c[0].startswith("entry"):
             continue
         if c[2] in seen_keys:
             continue  # a repeated entry: duplicate-key block
@@ -170,10 +173,12 @@ def run_shard(shard, tier, acc):
     for n in range(1, maxb + 1):
         for rest in itertools.product(range(len(CAT)), repeat=n - 1):
             check_doc((i,) + rest, acc)
+            if n <= 3:
+                check_doc((i,) + rest, acc, nl="\r\n")
 
 
 def replay(case, acc):
-    check_doc(tuple(case["ids"]), acc, case)
+    check_doc(tuple(case["ids"]), acc, case, nl=case.get("newline", "\n"))
 
 
 def unit_test(case):
